@@ -263,6 +263,12 @@ def check_case(case) -> CaseResult:
     if run.thread_excs:
         res.violate(f"{engine}|exception-in-service-thread|{skind}", {"excs": run.thread_excs[:3]})
     # a running child interpreter must not outlive the invoking state's exit
+    if skind == "machine":
+        for k, o in enumerate(run.steps):
+            if o.extra.get("actors_running") and "m.v" not in o.cfg and o.status in ("running", "stopped", "done"):
+                res.violate(f"{engine}|child-interpreter-alive-after-exit|machine|at-quiescence",
+                            {"step": k, "op": o.op, "cfg": sorted(o.cfg), "running": [x.split(":")[1] for x in o.extra["actors_running"]]})
+                break
     it = run.interp
     if skind == "machine" and it is not None:
         alive = [a.id for a in getattr(it, "_actors", {}).values() if a.status == "running"]
